@@ -103,13 +103,19 @@ func (srv *Session) consumeSingleCommand(ctx context.Context, reader *buffer.Rea
 		return err
 	}
 
+	// NOTE: a command handler is only registered while the server is not
+	// closing. The admission lock makes sure that every handler which has been
+	// registered is awaited by Close and that none is registered afterwards.
+	srv.admission.RLock()
 	if srv.closing.Load() {
+		srv.admission.RUnlock()
 		return nil
 	}
 
 	// NOTE: we increase the wait group by one in order to make sure that idle
 	// connections are not blocking a close.
 	srv.wg.Add(1)
+	srv.admission.RUnlock()
 	srv.logger.Debug("<- incoming command", slog.Int("length", length), slog.String("type", t.String()))
 	err = srv.handleCommand(ctx, conn, t, reader, writer)
 	srv.wg.Done()
